@@ -22,7 +22,7 @@ meta = {
     "breaks": agent.get("what_breaks", "")[:600],
     "needs_to_manifest": agent.get("needs_to_manifest", ""),
     "produced_by": "independent sub-agent given only the property text and a scratch worktree of /repo",
-    "round": {"mut": 1, "m2": 2, "m3": 3, "m4": 4}.get(pre, 0),
+    "round": {"mut": 1, "m2": 2, "m3": 3, "m4": 4, "m5": 5}.get(pre, 0),
     "confirmed_by_lead": "tools/confirm_mut.sh %s in the scratch worktree: demonstration run with the patch, the whole "
                          "workspace test suite with the patch (demonstration moved aside), demonstration without the patch" % mid,
     "confirm_log": conf,
